@@ -240,6 +240,35 @@ def run(ctx, tier):
                               with_scalar=repr(_norm(base))[:200], with_0d_array=repr(_norm(alt))[:200], second_call=repr(_norm(alt2))[:200],
                               callers_array_modified=bool(changed), monitor="replay", case=None)
     ctx.hit("replay_zero_dim_array_calls", nz)
+    # phase 1m: what a call hands back belongs to the caller: clearing / overwriting a returned list, dict or array in place and
+    # asking again gives the recorded answer (a cached or module-level object handed out by reference does not)
+    nm_ = 0
+    for i in order[:6000]:
+        fn, a, k, want = rec[i]
+        if not want.startswith("('ok', ") or not any(ch in want[:12] for ch in "[{a"):
+            continue
+        first = probe.call(fn, *_copy(a), **_copy(k))
+        v = first[1] if first[0] == "ok" else None
+        try:
+            if isinstance(v, list):
+                v.clear()
+                v.append("edited by the caller")
+            elif isinstance(v, dict):
+                v.clear()
+                v["edited"] = "by the caller"
+            elif np is not None and isinstance(v, np.ndarray) and v.size and v.flags.writeable:
+                v[...] = 0
+            else:
+                continue
+        except Exception:
+            continue
+        again = repr(probe.call(fn, *_copy(a), **_copy(k)))
+        nm_ += 1
+        ctx.ev(2)
+        if again != want:
+            ctx.violation("result-handed-out-by-reference:" + _name(fn).split(".")[-1], function=_name(fn), args=repr(a)[:300],
+                          recorded=want[:300], after_the_caller_edited_the_previous_result=again[:300], monitor="replay", case=None)
+    ctx.hit("replay_after_caller_edited_result", nm_)
     # phase 1i: a flag argument is judged by its truth value: numpy.bool_ (an element of a comparison such as (dfs == 17)[i])
     # and the ints 0 / 1 mean what False / True mean (`if flag is True:` only knows the two singletons)
     nf = 0
@@ -311,10 +340,17 @@ def run(ctx, tier):
             sl = int((time.time() - t_start) / 0.025)
             if sl % 2 == 0:
                 g = groups[gnames[(sl // 2 + ctx.shard * 7) % len(gnames)]]
+                if (sl // 2) % 2 == 1 and len(g) > 4:
+                    # ... every other such slice on a HANDFUL of its calls only, so that the threads keep asking for the very
+                    # messages the others have just decoded (last-result memos, check-then-read on a shared slot)
+                    j0 = (sl * 31) % (len(g) - 3)
+                    g = g[j0:j0 + 4]
                 picks = [g[r.randrange(len(g))] for _ in range(30)]
             else:
                 base = r.randrange(n)
                 picks = [(base + r.randrange(8)) % n for _ in range(30)]
+            # a call is often made twice or three times in a row (velocity() then speed_heading() on the same squitter)
+            picks = [i2 for i_ in picks for i2 in [i_] * (1 if r.random() < 0.6 else r.choice((2, 3)))]
             for i_ in picks:
                 fn, a, k, want = rec[i_]
                 got = repr(probe.call(fn, *_copy(a), **_copy(k)))
